@@ -36,6 +36,10 @@ func init() {
 	// the child mode must act before the normal flow: hook through an init-time wrapper of flag parsing
 	for i, a := range os.Args {
 		if a == "-child" && i+1 < len(os.Args) {
+			if strings.HasPrefix(os.Args[i+1], "seq,") {
+				fmt.Println(completes(os.Args[i+1]))
+				os.Exit(0)
+			}
 			if strings.HasPrefix(os.Args[i+1], "lin,") {
 				fmt.Println(linearize(os.Args[i+1]))
 				os.Exit(0)
@@ -273,6 +277,8 @@ func genRace(g *hx.Gen, out *hx.Out) {
 			sets = append(sets, []string{"lin", p[0], p[1], strconv.Itoa(rounds), noup, p[2]})
 		}
 	}
+	// every operation completes: all sequences of 4 operations, both modes
+	sets = append(sets, []string{"seq", "0", "4"}, []string{"seq", "1", "4"})
 	out.Batch("rc", "race", sets, 3, func(a []string) []string { return safe(runRace, a) })
 }
 
@@ -424,6 +430,65 @@ func linearize(spec string) string {
 			sort.Strings(al)
 			return "nonlinearizable:" + hx.HexS(fmt.Sprintf("%s||%s round %d: got {%s}, sequential orders give {%s}", a.name, b.name, i, got, strings.Join(al, "} or {")))
 		}
+	}
+	return "ok"
+}
+
+// ---------------------------------------------------------------- every operation completes
+
+// completes spec: "seq,<noup 0/1>,<maxlen>": every sequence of up to maxlen operations on a fresh
+// shim, each operation under a watchdog — none may block (a leaked lock shows as the next
+// operation that needs it never returning).  Output: ok | hang:<sequence>
+func completes(spec string) string {
+	f := strings.Split(spec, ",")
+	noup := f[1] == "1"
+	maxlen, _ := strconv.Atoi(f[2])
+	_, caPriv, _ := ed25519.GenerateKey(rand.Reader)
+	caS, _ := ssh.NewSignerFromKey(caPriv)
+	_, priv, _ := ed25519.GenerateKey(rand.Reader)
+	ks, _ := ssh.NewSignerFromKey(priv)
+	now := uint64(time.Now().Unix())
+	cert := &ssh.Certificate{Key: ks.PublicKey(), Serial: 9, CertType: ssh.UserCert, KeyId: "x", ValidAfter: now - 2000, ValidBefore: now + 100000}
+	cert.SignCert(rand.Reader, caS)
+	names := []string{"addhard", "lock", "unlock", "list", "removeall", "sign", "removecert", "addkey"}
+	var seq []string
+	var walk func(w *linWorld, depth int) string
+	run := func(w *linWorld, name string) bool {
+		done := make(chan struct{})
+		go func() { linOps[name].run(w); close(done) }()
+		select {
+		case <-done:
+			return true
+		case <-time.After(3 * time.Second):
+			return false
+		}
+	}
+	// depth-first over all sequences; a fresh world per complete sequence would cost too much, so
+	// each sequence replays its prefix on a fresh world only at the leaves of length maxlen
+	var all [][]string
+	var gen func(prefix []string)
+	gen = func(prefix []string) {
+		if len(prefix) == maxlen {
+			all = append(all, append([]string{}, prefix...))
+			return
+		}
+		for _, n := range names {
+			gen(append(prefix, n))
+		}
+	}
+	gen(nil)
+	_ = walk
+	_ = seq
+	for _, s := range all {
+		// skip sequences without a lock or a repeated hardware certificate: nothing can leak there
+		w := newLinWorld(noup, priv, cert, false)
+		for i, n := range s {
+			if !run(w, n) {
+				return "hang:" + hx.HexS(strings.Join(s[:i+1], ">")+" (operation "+n+" did not return within 3 s)")
+			}
+		}
+		w.y.Unlock([]byte("pw"))
+		w.stop()
 	}
 	return "ok"
 }
